@@ -27,6 +27,8 @@ from wire import Ok, Err, oracle_batch  # noqa: F401
 from pycaption import (DFXPWriter, SAMIWriter, WebVTTWriter, DFXPReader, SAMIReader, SCCReader, WebVTTReader)
 from pycaption.dfxp.extras import LegacyDFXPWriter, SinglePositioningDFXPWriter
 
+TABLES = ("Generated.v", "GenText.v")     # model/TextRead.v depends on the generated SAMI entity table
+
 STYLE_POOL = [(True, False, False, None), (False, True, False, None), (False, False, True, None),
               (True, True, False, None), (True, False, True, None), (True, True, True, None),
               (False, False, False, "red"), (True, False, False, "#00ff00"), (False, True, True, None)]
